@@ -10,6 +10,7 @@ import RosedVerif.Spec.Naturality
 import RosedVerif.Model.BridgeWrap
 import RosedVerif.Model.BridgeAlign
 import RosedVerif.Model.BridgeNatural
+import RosedVerif.Model.BridgeNatural2
 namespace RosedVerif.Props
 open RosedVerif.Spec
 variable {α β : Type} {tk : Toks α} {tk' : Toks β} {g : α → β}
@@ -219,5 +220,401 @@ theorem C03_lineCount_code_points {V V' : List (List Int)} (hV : VocabStable V =
       Editor.lineCount cxA (.root toks.flatten o0.flat) =
         (Spec.bareLines toks (o0.withDefaults cxB).lineSep o0.noTrailing).length :=
   lineCount_natural hV hV' g hg toks ht o0 hS hS' hfix hinv
+
+end RosedVerif.Props
+
+/-
+APPEND to RosedVerif/Props/C03.lean (after its final `end RosedVerif.Props`), and add
+    import RosedVerif.Model.BridgeNatural2
+to the imports at the top of that file.
+
+C03 on CODE POINTS for the remaining public operations: Chars / CharsFrom / CharsTo, Insert, Delete,
+Overtype, JustifyOpts, IndentOpts (non-paragraph mode), InsertTwoColumnsOpts,
+InsertDefinitionsTableOpts, InsertTableOpts, and the paragraph mode of WrapOpts / JustifyOpts /
+AlignOpts / IndentOpts.  Each statement is an application of the lemma of the same shape in
+`Model/BridgeNatural2.lean`; `insertToks`, `deleteToks`, `overtypeToks`, `selRange`, `posOf`,
+`justifyText`, `indentText`, `twoColText`, `defTableText`, `tableText` are the closed forms on
+cluster tokens defined there.
+-/
+namespace RosedVerif.Props
+open RosedVerif RosedVerif.BridgeOps RosedVerif.BridgeNatural RosedVerif.BridgeNatural2
+open RosedVerif.BridgeEditorParas (GoodPara)
+
+/-- **Chars on code points**: `Chars(s, e)` — any integers, `End`, negative positions — on a text
+and on its cluster-for-cluster substitution selects the same cluster range `[a, b)`; the selected
+text of the second is the substitution of the selected text of the first, and each sub-editor
+records the byte range of that cluster range in its own parent text.  Only `g : V → V'` between
+stable vocabularies is needed (no whitespace or separator hypothesis). -/
+theorem C03_chars_code_points {V V' : List (List Int)}
+    (hV : VocabStable V = true) (hV' : VocabStable V' = true)
+    (g : List Int → List Int) (hg : ∀ t ∈ V, g t ∈ V')
+    (toks : List (List Int)) (ht : ∀ t ∈ toks, t ∈ V) (o0 o0' : Options Int) (s e : Int) :
+    ∃ (sel : List (List Int)) (a b : Nat),
+      Editor.chars cxA (.root toks.flatten o0) s e =
+        .ok (.sub sel.flatten o0 (.root toks.flatten o0)
+          (byteLen cxA (toks.take a).flatten) (byteLen cxA (toks.take b).flatten)) ∧
+      Editor.chars cxA (.root (toks.map g).flatten o0') s e =
+        .ok (.sub (sel.map g).flatten o0' (.root (toks.map g).flatten o0')
+          (byteLen cxA ((toks.map g).take a).flatten)
+          (byteLen cxA ((toks.map g).take b).flatten)) ∧
+      clusters cxA sel.flatten = sel ∧ clusters cxA (sel.map g).flatten = sel.map g ∧
+      a ≤ b ∧ b ≤ toks.length ∧ sel = (toks.drop a).take (b - a) ∧
+      (a, b) = selRange toks.length s e :=
+  chars_natural hV hV' g hg toks ht o0 o0' s e
+
+/-- the same for CharsFrom (which passes the BYTE length of the text as end position: a different
+number on the two sides, the same clusters `[a, n)`) -/
+theorem C03_charsFrom_code_points {V V' : List (List Int)}
+    (hV : VocabStable V = true) (hV' : VocabStable V' = true)
+    (g : List Int → List Int) (hg : ∀ t ∈ V, g t ∈ V')
+    (toks : List (List Int)) (ht : ∀ t ∈ toks, t ∈ V) (o0 o0' : Options Int) (s : Int) :
+    ∃ (sel : List (List Int)) (a b : Nat),
+      Editor.charsFrom cxA (.root toks.flatten o0) s =
+        .ok (.sub sel.flatten o0 (.root toks.flatten o0)
+          (byteLen cxA (toks.take a).flatten) (byteLen cxA (toks.take b).flatten)) ∧
+      Editor.charsFrom cxA (.root (toks.map g).flatten o0') s =
+        .ok (.sub (sel.map g).flatten o0' (.root (toks.map g).flatten o0')
+          (byteLen cxA ((toks.map g).take a).flatten)
+          (byteLen cxA ((toks.map g).take b).flatten)) ∧
+      clusters cxA sel.flatten = sel ∧ clusters cxA (sel.map g).flatten = sel.map g ∧
+      a ≤ b ∧ b = toks.length ∧ sel = toks.drop a ∧ a = posOf toks.length s :=
+  charsFrom_natural hV hV' g hg toks ht o0 o0' s
+
+/-- the same for CharsTo: the clusters `[0, b)` -/
+theorem C03_charsTo_code_points {V V' : List (List Int)}
+    (hV : VocabStable V = true) (hV' : VocabStable V' = true)
+    (g : List Int → List Int) (hg : ∀ t ∈ V, g t ∈ V')
+    (toks : List (List Int)) (ht : ∀ t ∈ toks, t ∈ V) (o0 o0' : Options Int) (e : Int) :
+    ∃ (sel : List (List Int)) (b : Nat),
+      Editor.charsTo cxA (.root toks.flatten o0) e =
+        .ok (.sub sel.flatten o0 (.root toks.flatten o0) (0 : Nat)
+          (byteLen cxA (toks.take b).flatten)) ∧
+      Editor.charsTo cxA (.root (toks.map g).flatten o0') e =
+        .ok (.sub (sel.map g).flatten o0' (.root (toks.map g).flatten o0') (0 : Nat)
+          (byteLen cxA ((toks.map g).take b).flatten)) ∧
+      clusters cxA sel.flatten = sel ∧ clusters cxA (sel.map g).flatten = sel.map g ∧
+      b ≤ toks.length ∧ sel = toks.take b ∧ b = posOf toks.length e :=
+  charsTo_natural hV hV' g hg toks ht o0 o0' e
+
+/-- **Insert on code points**, every integer position; the inserted text is substituted too; `r` and
+`r.map g` are the REAL cluster lists of the two results -/
+theorem C03_insert_code_points {V V' : List (List Int)}
+    (hV : VocabStable V = true) (hV' : VocabStable V' = true)
+    (g : List Int → List Int) (hg : ∀ t ∈ V, g t ∈ V')
+    (toks : List (List Int)) (ht : ∀ t ∈ toks, t ∈ V) (o0 o0' : Options Int)
+    (p : Int) (ins : List (List Int)) (hi : ∀ t ∈ ins, t ∈ V) :
+    ∃ r : List (List Int),
+      Editor.insert cxA (.root toks.flatten o0) p ins.flatten = .ok (.root r.flatten o0) ∧
+      Editor.insert cxA (.root (toks.map g).flatten o0') p (ins.map g).flatten =
+        .ok (.root (r.map g).flatten o0') ∧
+      clusters cxA r.flatten = r ∧ clusters cxA (r.map g).flatten = r.map g ∧
+      r = insertToks toks p ins :=
+  insert_natural hV hV' g hg toks ht o0 o0' p ins hi
+
+/-- **Delete on code points**, every integer range -/
+theorem C03_delete_code_points {V V' : List (List Int)}
+    (hV : VocabStable V = true) (hV' : VocabStable V' = true)
+    (g : List Int → List Int) (hg : ∀ t ∈ V, g t ∈ V')
+    (toks : List (List Int)) (ht : ∀ t ∈ toks, t ∈ V) (o0 o0' : Options Int) (s e : Int) :
+    ∃ r : List (List Int),
+      Editor.delete cxA (.root toks.flatten o0) s e = .ok (.root r.flatten o0) ∧
+      Editor.delete cxA (.root (toks.map g).flatten o0') s e = .ok (.root (r.map g).flatten o0') ∧
+      clusters cxA r.flatten = r ∧ clusters cxA (r.map g).flatten = r.map g ∧
+      r = deleteToks toks s e :=
+  delete_natural hV hV' g hg toks ht o0 o0' s e
+
+/-- **Overtype on code points**, every integer position, no bound on the lengths (Go's 64-bit
+wrap-around of `pos + len(text)` is modelled and happens at the same cluster count on both sides) -/
+theorem C03_overtype_code_points {V V' : List (List Int)}
+    (hV : VocabStable V = true) (hV' : VocabStable V' = true)
+    (g : List Int → List Int) (hg : ∀ t ∈ V, g t ∈ V')
+    (toks : List (List Int)) (ht : ∀ t ∈ toks, t ∈ V) (o0 o0' : Options Int)
+    (p : Int) (ins : List (List Int)) (hi : ∀ t ∈ ins, t ∈ V) :
+    ∃ r : List (List Int),
+      Editor.overtype cxA (.root toks.flatten o0) p ins.flatten = .ok (.root r.flatten o0) ∧
+      Editor.overtype cxA (.root (toks.map g).flatten o0') p (ins.map g).flatten =
+        .ok (.root (r.map g).flatten o0') ∧
+      clusters cxA r.flatten = r ∧ clusters cxA (r.map g).flatten = r.map g ∧
+      r = overtypeToks toks p ins :=
+  overtype_natural hV hV' g hg toks ht o0 o0' p ins hi
+
+/-- **Editor.JustifyOpts on code points** (non-paragraph mode, `JustifyLastLine` on or off):
+hypotheses as for `C03_wrapOpts_code_points` -/
+theorem C03_justifyOpts_code_points {V V' : List (List Int)}
+    (hV : VocabStable V = true) (hsp : [0x20] ∈ V)
+    (hspTail : ∀ t ∈ V, (0x20 : Int) ∉ t.tail)
+    (hV' : VocabStable V' = true) (hsp' : [0x20] ∈ V') (hspTail' : ∀ t ∈ V', (0x20 : Int) ∉ t.tail)
+    (g : List Int → List Int) (hg : ∀ t ∈ V, g t ∈ V')
+    (hws : ∀ t, cxB.isSpace (g t) = cxB.isSpace t) (hgsp : g [0x20] = [0x20])
+    (hghy : g [0x2D] = [0x2D])
+    (toks : List (List Int)) (ht : ∀ t ∈ toks, t ∈ V) (width : Int) (o0 o : Options (List Int))
+    (hpp : o.preservePara = false)
+    (hS : GoodSep V (o.withDefaults cxB).lineSep) (hS' : GoodSep V' (o.withDefaults cxB).lineSep)
+    (hSV : ∀ s ∈ (o.withDefaults cxB).lineSep, s ∈ V)
+    (hfix : ∀ s ∈ (o.withDefaults cxB).lineSep, g s = s)
+    (hinv : ∀ t ∈ V, g t ∈ (o.withDefaults cxB).lineSep → t ∈ (o.withDefaults cxB).lineSep) :
+    ∃ r : List (List Int),
+      Editor.justifyOpts cxA (.root toks.flatten o0.flat) width o.flat =
+        .ok (.root r.flatten o0.flat) ∧
+      Editor.justifyOpts cxA (.root (toks.map g).flatten o0.flat) width o.flat =
+        .ok (.root (r.map g).flatten o0.flat) ∧
+      clusters cxA r.flatten = r ∧ clusters cxA (r.map g).flatten = r.map g ∧
+      r = justifyText (.root toks o0) width o :=
+  justifyOpts_natural_clusters hV hsp hspTail hV' hsp' hspTail' g hg hws hgsp hghy toks ht width
+    o0 o hpp hS hS' hSV hfix hinv
+
+/-- **Editor.IndentOpts on code points** (non-paragraph mode, every level): the indent string comes
+from the options, which are the same in both calls, so `g` fixes its tokens -/
+theorem C03_indentOpts_code_points {V V' : List (List Int)}
+    (hV : VocabStable V = true) (hV' : VocabStable V' = true)
+    (g : List Int → List Int) (hg : ∀ t ∈ V, g t ∈ V')
+    (toks : List (List Int)) (ht : ∀ t ∈ toks, t ∈ V) (level : Int) (o0 o : Options (List Int))
+    (hpp : o.preservePara = false)
+    (hS : GoodSep V (o.withDefaults cxB).lineSep) (hS' : GoodSep V' (o.withDefaults cxB).lineSep)
+    (hSV : ∀ s ∈ (o.withDefaults cxB).lineSep, s ∈ V)
+    (hfix : ∀ s ∈ (o.withDefaults cxB).lineSep, g s = s)
+    (hinv : ∀ t ∈ V, g t ∈ (o.withDefaults cxB).lineSep → t ∈ (o.withDefaults cxB).lineSep)
+    (hIV : ∀ s ∈ (o.withDefaults cxB).indentStr, s ∈ V)
+    (hfixI : ∀ s ∈ (o.withDefaults cxB).indentStr, g s = s) :
+    ∃ r : List (List Int),
+      Editor.indentOpts cxA (.root toks.flatten o0.flat) level o.flat =
+        .ok (.root r.flatten o0.flat) ∧
+      Editor.indentOpts cxA (.root (toks.map g).flatten o0.flat) level o.flat =
+        .ok (.root (r.map g).flatten o0.flat) ∧
+      clusters cxA r.flatten = r ∧ clusters cxA (r.map g).flatten = r.map g ∧
+      r = indentText (.root toks o0) level o :=
+  indentOpts_natural_clusters hV hV' g hg toks ht level o0 o hpp hS hS' hSV hfix hinv hIV hfixI
+
+/-- **Editor.InsertTwoColumnsOpts on code points**: every position, gap, width, percentage; both
+column texts are substituted together with the receiver -/
+theorem C03_twoColumns_code_points {V V' : List (List Int)}
+    (hV : VocabStable V = true) (hsp : [0x20] ∈ V)
+    (hhy : [0x2D] ∈ V) (hspTail : ∀ t ∈ V, (0x20 : Int) ∉ t.tail)
+    (hV' : VocabStable V' = true) (hsp' : [0x20] ∈ V') (hspTail' : ∀ t ∈ V', (0x20 : Int) ∉ t.tail)
+    (g : List Int → List Int) (hg : ∀ t ∈ V, g t ∈ V')
+    (hws : ∀ t, cxB.isSpace (g t) = cxB.isSpace t) (hgsp : g [0x20] = [0x20])
+    (hghy : g [0x2D] = [0x2D])
+    (toks : List (List Int)) (ht : ∀ t ∈ toks, t ∈ V) (o0 : Options (List Int)) (pos : Int)
+    (l r : List (List Int)) (hl : ∀ t ∈ l, t ∈ V) (hr : ∀ t ∈ r, t ∈ V) (gap width : Int)
+    (pct : Pct) (o : Options (List Int))
+    (hS : GoodSep V (o.withDefaults cxB).lineSep) (hS' : GoodSep V' (o.withDefaults cxB).lineSep)
+    (hSV : ∀ s ∈ (o.withDefaults cxB).lineSep, s ∈ V)
+    (hfix : ∀ s ∈ (o.withDefaults cxB).lineSep, g s = s)
+    (hinv : ∀ t ∈ V, g t ∈ (o.withDefaults cxB).lineSep → t ∈ (o.withDefaults cxB).lineSep) :
+    ∃ x : List (List Int),
+      Editor.insertTwoColumnsOpts cxA (.root toks.flatten o0.flat) pos l.flatten r.flatten gap
+        width pct o.flat = .ok (.root x.flatten o0.flat) ∧
+      Editor.insertTwoColumnsOpts cxA (.root (toks.map g).flatten o0.flat) pos (l.map g).flatten
+        (r.map g).flatten gap width pct o.flat = .ok (.root (x.map g).flatten o0.flat) ∧
+      clusters cxA x.flatten = x ∧ clusters cxA (x.map g).flatten = x.map g ∧
+      x = twoColText toks pos l r gap width pct o :=
+  insertTwoColumnsOpts_natural_clusters hV hsp hhy hspTail hV' hsp' hspTail' g hg hws hgsp hghy
+    toks ht o0 pos l r hl hr gap width pct o hS hS' hSV hfix hinv
+
+/-- **Editor.InsertDefinitionsTableOpts on code points**: terms and definitions are substituted; the
+paragraph separator (from the options) is fixed by `g` -/
+theorem C03_defTable_code_points {V V' : List (List Int)}
+    (hV : VocabStable V = true) (hsp : [0x20] ∈ V)
+    (hhy : [0x2D] ∈ V) (hspTail : ∀ t ∈ V, (0x20 : Int) ∉ t.tail)
+    (hV' : VocabStable V' = true) (hsp' : [0x20] ∈ V') (hspTail' : ∀ t ∈ V', (0x20 : Int) ∉ t.tail)
+    (g : List Int → List Int) (hg : ∀ t ∈ V, g t ∈ V')
+    (hws : ∀ t, cxB.isSpace (g t) = cxB.isSpace t) (hgsp : g [0x20] = [0x20])
+    (hghy : g [0x2D] = [0x2D])
+    (toks : List (List Int)) (ht : ∀ t ∈ toks, t ∈ V) (o0 : Options (List Int)) (pos : Int)
+    (defs : List (List (List Int) × List (List Int)))
+    (hd1 : ∀ d ∈ defs, ∀ t ∈ d.1, t ∈ V) (hd2 : ∀ d ∈ defs, ∀ t ∈ d.2, t ∈ V) (width : Int)
+    (o : Options (List Int))
+    (hS : GoodSep V (o.withDefaults cxB).lineSep) (hS' : GoodSep V' (o.withDefaults cxB).lineSep)
+    (hSV : ∀ s ∈ (o.withDefaults cxB).lineSep, s ∈ V)
+    (hfix : ∀ s ∈ (o.withDefaults cxB).lineSep, g s = s)
+    (hinv : ∀ t ∈ V, g t ∈ (o.withDefaults cxB).lineSep → t ∈ (o.withDefaults cxB).lineSep)
+    (hPV : ∀ s ∈ (o.withDefaults cxB).paraSep, s ∈ V)
+    (hfixP : ∀ s ∈ (o.withDefaults cxB).paraSep, g s = s) :
+    ∃ x : List (List Int),
+      Editor.insertDefTableOpts cxA (.root toks.flatten o0.flat) pos
+        (defs.map fun d => (d.1.flatten, d.2.flatten)) width o.flat =
+          .ok (.root x.flatten o0.flat) ∧
+      Editor.insertDefTableOpts cxA (.root (toks.map g).flatten o0.flat) pos
+        (defs.map fun d => ((d.1.map g).flatten, (d.2.map g).flatten)) width o.flat =
+          .ok (.root (x.map g).flatten o0.flat) ∧
+      clusters cxA x.flatten = x ∧ clusters cxA (x.map g).flatten = x.map g ∧
+      x = defTableText toks pos defs width o :=
+  insertDefTableOpts_natural_clusters hV hsp hhy hspTail hV' hsp' hspTail' g hg hws hgsp hghy toks
+    ht o0 pos defs hd1 hd2 width o hS hS' hSV hfix hinv hPV hfixP
+
+/-- **Editor.InsertTableOpts on code points**: the cells are substituted; the character set (from
+the options) is fixed by `g`; with a header row both vocabularies are closed under upper-casing and
+`g` commutes with it -/
+theorem C03_table_code_points {V V' : List (List Int)}
+    (hV : VocabStable V = true) (hsp : [0x20] ∈ V)
+    (hV' : VocabStable V' = true)
+    (g : List Int → List Int) (hg : ∀ t ∈ V, g t ∈ V')
+    (hws : ∀ t, cxB.isSpace (g t) = cxB.isSpace t) (hgsp : g [0x20] = [0x20])
+    (hghy : g [0x2D] = [0x2D])
+    (toks : List (List Int)) (ht : ∀ t ∈ toks, t ∈ V) (o0 : Options (List Int)) (pos : Int)
+    (data : List (List (List (List Int))))
+    (hdata : ∀ row ∈ data, ∀ cell ∈ row, ∀ t ∈ cell, t ∈ V) (width : Int)
+    (o : Options (List Int)) (hSV : ∀ s ∈ (o.withDefaults cxB).lineSep, s ∈ V)
+    (hfix : ∀ s ∈ (o.withDefaults cxB).lineSep, g s = s)
+    (hc : ∀ t ∈ o.charset, t ∈ V) (hcd : ∀ t ∈ (o.withDefaults cxB).charset, t ∈ V)
+    (hfixC0 : ∀ t ∈ o.charset, g t = t) (hfixC : ∀ t ∈ (o.withDefaults cxB).charset, g t = t)
+    (hup : o.headers = true → ∀ t ∈ V, t.map upperRune ∈ V)
+    (hup' : o.headers = true → ∀ t ∈ V', t.map upperRune ∈ V')
+    (hupg : o.headers = true → ∀ t ∈ V, g (t.map upperRune) = (g t).map upperRune) :
+    ∃ x : List (List Int),
+      Editor.insertTableOpts cxA (.root toks.flatten o0.flat) pos
+        (data.map (List.map List.flatten)) width o.flat = .ok (.root x.flatten o0.flat) ∧
+      Editor.insertTableOpts cxA (.root (toks.map g).flatten o0.flat) pos
+        ((data.map (List.map (List.map g))).map (List.map List.flatten)) width o.flat =
+          .ok (.root (x.map g).flatten o0.flat) ∧
+      clusters cxA x.flatten = x ∧ clusters cxA (x.map g).flatten = x.map g ∧
+      x = tableText toks pos data width o :=
+  insertTableOpts_natural_clusters hV hsp hV' g hg hws hgsp hghy toks ht o0 pos data hdata width o
+    hSV hfix hc hcd hfixC0 hfixC hup hup' hupg
+
+/-- **paragraph mode** (`preservePara = true`), Editor.WrapOpts: the line and paragraph separators
+form a `BridgeEditorParas.GoodPara` pair for both vocabularies and are fixed by `g`; the placeholder
+letter `A` the implementation pads paragraphs with is a cluster of `V` fixed by `g`.  `r` is the
+result of the operation on cluster tokens. -/
+theorem C03_wrapOpts_para_code_points {V V' : List (List Int)}
+    (hV : VocabStable V = true)
+    (hsp : [0x20] ∈ V) (hhy : [0x2D] ∈ V) (hA : [0x41] ∈ V)
+    (hspTail : ∀ t ∈ V, (0x20 : Int) ∉ t.tail)
+    (hV' : VocabStable V' = true) (hspTail' : ∀ t ∈ V', (0x20 : Int) ∉ t.tail)
+    (g : List Int → List Int) (hg : ∀ t ∈ V, g t ∈ V')
+    (hws : ∀ t, cxB.isSpace (g t) = cxB.isSpace t) (hgsp : g [0x20] = [0x20])
+    (hghy : g [0x2D] = [0x2D]) (hgA : g [0x41] = [0x41])
+    (toks : List (List Int)) (ht : ∀ t ∈ toks, t ∈ V) (width : Int) (o0 o : Options (List Int))
+    (hpp : o.preservePara = true)
+    (hG : GoodPara V (o.withDefaults cxB).lineSep (o.withDefaults cxB).paraSep)
+    (hG' : GoodPara V' (o.withDefaults cxB).lineSep (o.withDefaults cxB).paraSep)
+    (hfix : ∀ s ∈ (o.withDefaults cxB).lineSep, g s = s)
+    (hinv : ∀ t ∈ V, g t ∈ (o.withDefaults cxB).lineSep → t ∈ (o.withDefaults cxB).lineSep)
+    (hfixP : ∀ s ∈ (o.withDefaults cxB).paraSep, g s = s)
+    (hinvP : ∀ t ∈ V, g t ∈ (o.withDefaults cxB).paraSep → t ∈ (o.withDefaults cxB).paraSep) :
+    ∃ r : List (List Int),
+      Editor.wrapOpts cxA (.root toks.flatten o0.flat) width o.flat =
+        .ok (.root r.flatten o0.flat) ∧
+      Editor.wrapOpts cxA (.root (toks.map g).flatten o0.flat) width o.flat =
+        .ok (.root (r.map g).flatten o0.flat) ∧
+      Editor.wrapOpts cxB (.root toks o0) width o = .ok (.root r o0) :=
+  wrapOpts_natural_para hV hsp hhy hA hspTail hV' hspTail' g hg hws hgsp hghy hgA toks ht width o0
+    o hpp hG hG' hfix hinv hfixP hinvP
+
+/-- paragraph mode, Editor.JustifyOpts (`JustifyLastLine` on or off) -/
+theorem C03_justifyOpts_para_code_points {V V' : List (List Int)}
+    (hV : VocabStable V = true)
+    (hsp : [0x20] ∈ V) (hA : [0x41] ∈ V) (hspTail : ∀ t ∈ V, (0x20 : Int) ∉ t.tail)
+    (hV' : VocabStable V' = true) (hspTail' : ∀ t ∈ V', (0x20 : Int) ∉ t.tail)
+    (g : List Int → List Int) (hg : ∀ t ∈ V, g t ∈ V')
+    (hws : ∀ t, cxB.isSpace (g t) = cxB.isSpace t) (hgsp : g [0x20] = [0x20])
+    (hghy : g [0x2D] = [0x2D]) (hgA : g [0x41] = [0x41])
+    (toks : List (List Int)) (ht : ∀ t ∈ toks, t ∈ V) (width : Int) (o0 o : Options (List Int))
+    (hpp : o.preservePara = true)
+    (hG : GoodPara V (o.withDefaults cxB).lineSep (o.withDefaults cxB).paraSep)
+    (hG' : GoodPara V' (o.withDefaults cxB).lineSep (o.withDefaults cxB).paraSep)
+    (hfix : ∀ s ∈ (o.withDefaults cxB).lineSep, g s = s)
+    (hinv : ∀ t ∈ V, g t ∈ (o.withDefaults cxB).lineSep → t ∈ (o.withDefaults cxB).lineSep)
+    (hfixP : ∀ s ∈ (o.withDefaults cxB).paraSep, g s = s)
+    (hinvP : ∀ t ∈ V, g t ∈ (o.withDefaults cxB).paraSep → t ∈ (o.withDefaults cxB).paraSep) :
+    ∃ r : List (List Int),
+      Editor.justifyOpts cxA (.root toks.flatten o0.flat) width o.flat =
+        .ok (.root r.flatten o0.flat) ∧
+      Editor.justifyOpts cxA (.root (toks.map g).flatten o0.flat) width o.flat =
+        .ok (.root (r.map g).flatten o0.flat) ∧
+      Editor.justifyOpts cxB (.root toks o0) width o = .ok (.root r o0) :=
+  justifyOpts_natural_para hV hsp hA hspTail hV' hspTail' g hg hws hgsp hghy hgA toks ht width o0
+    o hpp hG hG' hfix hinv hfixP hinvP
+
+/-- paragraph mode, Editor.AlignOpts, every alignment value (no placeholder letter involved) -/
+theorem C03_alignOpts_para_code_points {V V' : List (List Int)}
+    (hV : VocabStable V = true)
+    (hsp : [0x20] ∈ V) (hV' : VocabStable V' = true)
+    (g : List Int → List Int) (hg : ∀ t ∈ V, g t ∈ V')
+    (hws : ∀ t, cxB.isSpace (g t) = cxB.isSpace t) (hgsp : g [0x20] = [0x20])
+    (hghy : g [0x2D] = [0x2D])
+    (toks : List (List Int)) (ht : ∀ t ∈ toks, t ∈ V) (align width : Int)
+    (o0 o : Options (List Int)) (hpp : o.preservePara = true)
+    (hG : GoodPara V (o.withDefaults cxB).lineSep (o.withDefaults cxB).paraSep)
+    (hG' : GoodPara V' (o.withDefaults cxB).lineSep (o.withDefaults cxB).paraSep)
+    (hfix : ∀ s ∈ (o.withDefaults cxB).lineSep, g s = s)
+    (hinv : ∀ t ∈ V, g t ∈ (o.withDefaults cxB).lineSep → t ∈ (o.withDefaults cxB).lineSep)
+    (hfixP : ∀ s ∈ (o.withDefaults cxB).paraSep, g s = s)
+    (hinvP : ∀ t ∈ V, g t ∈ (o.withDefaults cxB).paraSep → t ∈ (o.withDefaults cxB).paraSep) :
+    ∃ r : List (List Int),
+      Editor.alignOpts cxA (.root toks.flatten o0.flat) align width o.flat =
+        .ok (.root r.flatten o0.flat) ∧
+      Editor.alignOpts cxA (.root (toks.map g).flatten o0.flat) align width o.flat =
+        .ok (.root (r.map g).flatten o0.flat) ∧
+      Editor.alignOpts cxB (.root toks o0) align width o = .ok (.root r o0) :=
+  alignOpts_natural_para hV hsp hV' g hg hws hgsp hghy toks ht align width o0 o hpp hG hG' hfix
+    hinv hfixP hinvP
+
+/-- paragraph mode, Editor.IndentOpts, every level -/
+theorem C03_indentOpts_para_code_points {V V' : List (List Int)}
+    (hV : VocabStable V = true)
+    (hV' : VocabStable V' = true)
+    (g : List Int → List Int) (hg : ∀ t ∈ V, g t ∈ V')
+    (toks : List (List Int)) (ht : ∀ t ∈ toks, t ∈ V) (level : Int) (o0 o : Options (List Int))
+    (hpp : o.preservePara = true)
+    (hG : GoodPara V (o.withDefaults cxB).lineSep (o.withDefaults cxB).paraSep)
+    (hG' : GoodPara V' (o.withDefaults cxB).lineSep (o.withDefaults cxB).paraSep)
+    (hfix : ∀ s ∈ (o.withDefaults cxB).lineSep, g s = s)
+    (hinv : ∀ t ∈ V, g t ∈ (o.withDefaults cxB).lineSep → t ∈ (o.withDefaults cxB).lineSep)
+    (hfixP : ∀ s ∈ (o.withDefaults cxB).paraSep, g s = s)
+    (hinvP : ∀ t ∈ V, g t ∈ (o.withDefaults cxB).paraSep → t ∈ (o.withDefaults cxB).paraSep)
+    (hI : ∀ s ∈ (o.withDefaults cxB).indentStr, s ≠ [])
+    (hfixI : ∀ s ∈ (o.withDefaults cxB).indentStr, g s = s) :
+    ∃ r : List (List Int),
+      Editor.indentOpts cxA (.root toks.flatten o0.flat) level o.flat =
+        .ok (.root r.flatten o0.flat) ∧
+      Editor.indentOpts cxA (.root (toks.map g).flatten o0.flat) level o.flat =
+        .ok (.root (r.map g).flatten o0.flat) ∧
+      Editor.indentOpts cxB (.root toks o0) level o = .ok (.root r o0) :=
+  indentOpts_natural_para hV hV' g hg toks ht level o0 o hpp hG hG' hfix hinv hfixP hinvP hI hfixI
+
+/-- **precomposed ↔ decomposed**: `BridgeOps.demoVocab3` has `é` decomposed (`e` + U+0301, two code
+points) and the flag 🇩🇪; `BridgeNatural.demoG` sends `e` + U+0301 to the precomposed U+00E9 of
+`BridgeNatural.demoVocabNFC` (and, non-injectively, the flag to `a`).  For EVERY text over
+`demoVocab3`, every position and every inserted text over it: `Insert` on the decomposed code points
+and on the precomposed code points give results whose real UAX #29 clusters are `r` and
+`r.map demoG`; `Delete` likewise. -/
+example (toks ins : List (List Int)) (ht : ∀ t ∈ toks, t ∈ BridgeOps.demoVocab3)
+    (hi : ∀ t ∈ ins, t ∈ BridgeOps.demoVocab3) (o0 o0' : Options Int) (p s e : Int) :
+    (∃ r : List (List Int),
+      Editor.insert cxA (.root toks.flatten o0) p ins.flatten = .ok (.root r.flatten o0) ∧
+      Editor.insert cxA (.root (toks.map demoG).flatten o0') p (ins.map demoG).flatten =
+        .ok (.root (r.map demoG).flatten o0') ∧
+      clusters cxA r.flatten = r ∧ clusters cxA (r.map demoG).flatten = r.map demoG ∧
+      r = insertToks toks p ins) ∧
+    (∃ r : List (List Int),
+      Editor.delete cxA (.root toks.flatten o0) s e = .ok (.root r.flatten o0) ∧
+      Editor.delete cxA (.root (toks.map demoG).flatten o0') s e =
+        .ok (.root (r.map demoG).flatten o0') ∧
+      clusters cxA r.flatten = r ∧ clusters cxA (r.map demoG).flatten = r.map demoG ∧
+      r = deleteToks toks s e) :=
+  ⟨C03_insert_code_points BridgeOps.demoVocab3_stable demoVocabNFC_stable demoG demoG_hg toks ht o0
+      o0' p ins hi,
+    C03_delete_code_points BridgeOps.demoVocab3_stable demoVocabNFC_stable demoG demoG_hg toks ht o0
+      o0' s e⟩
+
+/-- the same pair of vocabularies for a layout operation: `JustifyOpts` with the default options
+(line separator U+000A), every text over `demoVocab3`, every width -/
+example (toks : List (List Int)) (ht : ∀ t ∈ toks, t ∈ BridgeOps.demoVocab3) (w : Int)
+    (o0 : Options (List Int)) :
+    ∃ r : List (List Int),
+      Editor.justifyOpts cxA (.root toks.flatten o0.flat) w ({} : Options (List Int)).flat =
+        .ok (.root r.flatten o0.flat) ∧
+      Editor.justifyOpts cxA (.root (toks.map demoG).flatten o0.flat) w
+        ({} : Options (List Int)).flat = .ok (.root (r.map demoG).flatten o0.flat) ∧
+      clusters cxA r.flatten = r ∧ clusters cxA (r.map demoG).flatten = r.map demoG ∧
+      r = justifyText (.root toks o0) w {} :=
+  C03_justifyOpts_code_points BridgeOps.demoVocab3_stable BridgeOps.demoVocab3_sp
+    BridgeOps.demoVocab3_spTail demoVocabNFC_stable (by decide) (by decide) demoG demoG_hg demoG_ws
+    rfl rfl toks ht w o0 {} rfl
+    (by rw [default_lineSep_B]; exact BridgeEditorOps.demo3_good_nl)
+    (by rw [default_lineSep_B]; exact goodSep_rune demoVocabNFC_stable (by decide))
+    (by rw [default_lineSep_B]; decide) (by rw [default_lineSep_B]; decide)
+    (by rw [default_lineSep_B]; decide)
 
 end RosedVerif.Props
